@@ -266,7 +266,13 @@ def unit_loose(U):
                         "feature_from_line(space rendering, strict=False) equals the Feature parsed from the tab rendering (same printed line, same dialect)", [], z3.BoolVal(bool(ok)), {}, replay=replay)
 
 
-UNITS = [("roundtrip.kv", _unit_roundtrip(("k=v",))), ("roundtrip.kqv", _unit_roundtrip(('k="v"',))), ("roundtrip.gtf", _unit_roundtrip(('k "v"',))),
+def unit_quoter_switch(U):
+    """printing is not influenced by what was printed earlier under the other setting of the escape switch (shared with C08)"""
+    from props import C08
+    C08.quoter_after_switch(U, "C07")
+
+
+UNITS = [("quoter_switch", unit_quoter_switch), ("roundtrip.kv", _unit_roundtrip(("k=v",))), ("roundtrip.kqv", _unit_roundtrip(('k="v"',))), ("roundtrip.gtf", _unit_roundtrip(('k "v"',))),
          ("roundtrip.gff2", _unit_roundtrip(("k v",))), ("empty_attrs", unit_empty_attrs), ("loose", unit_loose),
          ("roundtrip.casekeys", _unit_roundtrip(("k=v", 'k "v"'), keys=("Note", "ID", "note"))), ("roundtrip.prefixkeys", _unit_roundtrip(("k=v",), keys=("gene", "ID", "gene_id")))]
 try:
